@@ -5,6 +5,7 @@
 -/
 import Driver.Codec
 import Driver.Ctl
+import Driver.Xml
 open Svgdx Driver
 
 def errLine (e : Err) : String := joinFields [cs!"err", e.name.toList]
@@ -159,7 +160,10 @@ def handle (line : String) : String :=
     | none =>
       match handleCtl op args with
       | some r => r
-      | none => "bad-op"
+      | none =>
+        match handleXml op args with
+        | some r => r
+        | none => "bad-op"
   | [] => "bad-op"
 
 partial def loop (h : IO.FS.Stream) (out : IO.FS.Stream) : IO Unit := do
